@@ -6,7 +6,7 @@
    for every pick the real program makes. *)
 From Coq Require Import ZArith QArith List Bool Lia.
 Import ListNotations.
-From Inf Require Import model.RepexM model.MatchM proofs.RepexP proofs.MatchP.
+From Inf Require Import model.RepexM model.MatchM proofs.RepexP proofs.MatchP proofs.SortP.
 Open Scope nat_scope.
 
 (* in every state reachable by certified picks, re-issued jobs and completions in any order
@@ -52,7 +52,39 @@ Theorem C05_sort_result : forall fuel s it s1 n, sort_loop fuel s it = SortOk s1
 Proof. exact sort_loop_done. Qed.
 Print Assumptions C05_sort_result.
 
-(* re-sorting terminates — BOUNDED: for every staircase weight matrix with up to 4 plus
+(* re-sorting terminates — for ANY number of ensembles: on every state that satisfies the
+   exclusivity invariant, whose idle block has a perfect matching and whose weight rows are
+   staircases (slot 0 holds a [0-] row; the rows in the plus slots are non-zero on a prefix of the
+   plus columns; all rows have full length), the literal loop of sort_trajstate (with the fuel
+   the model gives it) ends without error, leaves no slot that needs moving, preserves all of
+   these properties, and needs at most mu s <= n*(n+1) + n + 1 swaps.  The measure: the first
+   badly placed slot never moves left, and while it stays the row sitting in it gets strictly
+   longer (a row arriving from the left keeps its old slot well placed: pigeonhole on the matching). *)
+Theorem C05_sort_terminates : forall s,
+  Inv s -> Matchable s -> Stair s -> RowsWF s ->
+  exists s1 n, sort_trajstate s = SortOk s1 n /\ first_bad s1 = None /\ n <= mu s /\
+               mu s <= size s * (size s + 1) + size s + 1 /\
+               Inv s1 /\ Matchable s1 /\ Stair s1 /\ RowsWF s1.
+Proof.
+  intros s I M St Rw.
+  destruct (sort_trajstate_terminates s (conj I (conj M (conj St Rw)))) as (s1 & n & R & (I1 & M1 & St1 & Rw1) & B & C).
+  exists s1, n. split; [exact R|]. split; [exact B|]. split; [exact C|]. split; [|exact (conj I1 (conj M1 (conj St1 Rw1)))].
+  unfold mu. destruct (first_bad s) as [e|]; [|lia].
+  assert (H1 : (size s - e) * (size s + 1) <= size s * (size s + 1)) by nia.
+  assert (H2 : size s - fz s e <= size s) by lia.
+  generalize dependent (fz s e). intros. lia.
+Qed.
+Print Assumptions C05_sort_terminates.
+
+(* one iteration makes progress *)
+Theorem C05_sort_step_progress : forall s e,
+  SInv s -> first_bad s = Some e ->
+  exists s1, sort_step s e = Some s1 /\ SInv s1 /\ size s1 = size s /\ mu s1 < mu s.
+Proof. exact sort_step_progress. Qed.
+Print Assumptions C05_sort_step_progress.
+
+(* re-sorting terminates — BOUNDED (kept: no row-length or staircase hypothesis is needed here, the
+   states are generated): for every staircase weight matrix with up to 4 plus
    ensembles (5 ensembles and the ghost), every busy set whose busy slots are valid and whose
    idle block has a perfect matching, the literal loop of sort_trajstate ends without error
    within n^2 swaps.  (Proved by exhaustive evaluation; the general statement for any number
@@ -67,6 +99,25 @@ Print Assumptions C05_sort_terminates_bounded.
 Definition ex5 : fstate :=
   mkFS (mkR [[1;0;0;0]; [0;1;1;0]; [0;1;1;0]; [0;0;0;0]]%Z [0;1;2;0] [false;false;false;true] [] 3)
        [(0, [0;0;0;0]%Q); (1, [0;0;0;0]%Q); (2, [0;0;0;0]%Q)] [] 0.
+
+Example C05_example_sort :
+  let s := stair_state [2; 3; 1] [false; false; false; false] in
+  Stair s /\ RowsWF s /\ matb s [0; 2; 3; 1; 0] = true /\
+  exists s1 n, sort_trajstate s = SortOk s1 n /\ n = 2.
+Proof.
+  cbn zeta. split; [|split; [|split]].
+  - split; [cbn; discriminate|]. split.
+    + intros c Hc. unfold wij. cbn. destruct c as [|[|[|[|[|c]]]]]; try reflexivity; try lia. destruct c; reflexivity.
+    + intros r Hr. cbn in Hr. split.
+      * destruct r as [|[|[|[|r]]]]; try lia; reflexivity.
+      * intros c c' Hc Hc'. cbn in Hc'.
+        destruct r as [|[|[|[|r]]]]; try lia;
+          destruct c' as [|[|[|[|c']]]]; try lia;
+            destruct c as [|[|[|[|c]]]]; try lia; unfold wij; cbn; intros H; try discriminate; try (exfalso; apply H; reflexivity).
+  - intros r Hr. cbn in Hr. destruct r as [|[|[|[|[|r]]]]]; try lia; reflexivity.
+  - vm_compute. reflexivity.
+  - eexists. eexists. split; vm_compute; reflexivity.
+Qed.
 
 Example C05_example_init : matb (core ex5) [0;1;2;0] = true.
 Proof. vm_compute. reflexivity. Qed.
